@@ -19,7 +19,23 @@ import (
 )
 
 // gty is a Go type expression in the encoding of the Lean model (Scan.GoTy), with what the Go source needs on top.
+// c16Embeds are helper struct types declared in every generated package and embedded into models.
+const c16Embeds = `
+type timestamps struct {
+	CreatedAt int64  ` + "`json:\"created_at\"`" + `
+	Revision  uint32
+}
+
+// Audit is an exported embedded type.
+type Audit struct {
+	By   string ` + "`json:\"by,omitempty\"`" + `
+	Note *string
+}
+
+`
+
 type gty struct {
+	Embeds []string `json:"-"` // embedded helper types (timestamps, *Audit): outside the Lean fragment
 	K      string   `json:"k"` // basic | ptr | slice | arr | map | strct | time | bytes | iface | named
 	Kind   string   `json:"kind,omitempty"`
 	GoName string   `json:"-"` // spelling of a basic kind (int32, uint8, float32, ...)
@@ -113,6 +129,9 @@ func (t *gty) src() string {
 	case "strct":
 		var b strings.Builder
 		b.WriteString("struct {\n")
+		for _, e := range t.Embeds {
+			fmt.Fprintf(&b, "\t%s\n", e)
+		}
 		for _, f := range t.Fields {
 			tag := f.JSON
 			if f.Skip {
@@ -146,6 +165,9 @@ func (t *gty) lean() interface{} {
 		return nil
 	}
 	m := map[string]interface{}{"k": t.K}
+	if t.K == "slice" && t.Elem != nil && t.Elem.K == "basic" && t.Elem.GoName == "uint8" {
+		return map[string]interface{}{"k": "bytes"} // []uint8 IS []byte
+	}
 	switch t.K {
 	case "basic":
 		m["kind"] = t.Kind
@@ -336,15 +358,24 @@ func CheckC16(run *ev.Run) {
 		"interface{}, references to other models; json tags with rename, '-', omitempty, ',string', untagged fields) are scanned with codescan AND compiled into a program that fills values by reflection and marshals " +
 		"them; every marshalled document is validated against the scanned definition (go-openapi/validate) and decoded back into the type; the scanned definition is compared with the Lean schemaOf on the same type"
 	run.Trusted = append(run.Trusted, "codescan.Run in-process", "the compiled program (encoding/json of the real types)", "go-openapi/validate as acceptance oracle (strict about null)", "structural projection of schemas (type, items, properties, additionalProperties, $ref)")
-	run.Assume = append(run.Assume, "formats (int32, float, date-time) are compared only through the validator", "embedded structs, named non-struct types and custom marshalers are not generated yet")
+	run.Assume = append(run.Assume, "formats (int32, float, date-time) are compared only through the validator", "oracle gap: strfmt refuses the empty string as base64 (an empty non-nil []byte); such reports are discarded", "embedded structs, named non-struct types and custom marshalers are not generated yet")
 	for pi := 0; pi < nPkgs; pi++ {
 		models := []string{}
 		types := map[string]*gty{}
 		var src strings.Builder
 		src.WriteString("// Package types holds generated model types.\npackage types\n\nimport \"time\"\n\nvar _ = time.Now\n\n")
+		src.WriteString(c16Embeds)
 		for i := 0; i < 6; i++ {
 			name := fmt.Sprintf("Model%c", 'A'+i)
 			t := genStruct(r, 3, models)
+			switch i { // every package has each kind of embedding once
+			case 1:
+				t.Embeds = []string{"timestamps"}
+			case 2:
+				t.Embeds = []string{"*timestamps", "Audit"}
+			case 3:
+				t.Embeds = []string{"*Audit"}
+			}
 			types[name] = t
 			fmt.Fprintf(&src, "// %s is a generated model.\n//\n// swagger:model %s\ntype %s %s\n\n", name, name, name, t.src())
 			models = append(models, name)
@@ -395,6 +426,10 @@ func CheckC16(run *ev.Run) {
 		// (1) schema vs the Lean model
 		for _, name := range models {
 			t := types[name]
+			if len(t.Embeds) > 0 {
+				st["schema-comparison-skipped(embedded)"]++
+				continue
+			}
 			mb, _ := json.Marshal(map[string]interface{}{"op": "scan.schema", "ty": t.lean()})
 			out, merr := m.Call(mb)
 			var mr struct {
@@ -452,6 +487,10 @@ func CheckC16(run *ev.Run) {
 			vres := validate.NewSchemaValidator(&sch, &sdoc, "", strfmt.Default).Validate(doc)
 			if vres != nil && len(vres.Errors) > 0 {
 				msg := vres.Errors[0].Error()
+				if strings.Contains(msg, `must be of type byte: ""`) {
+					st["oracle-gap(empty base64 string refused by strfmt)"]++
+					continue
+				}
 				key := "encoding-not-accepted"
 				switch {
 				case strings.Contains(msg, "null") || strings.Contains(msg, "is required"):
@@ -470,6 +509,16 @@ func CheckC16(run *ev.Run) {
 			} else {
 				st["encoding-accepted"]++
 			}
+			if und := undeclaredMembers(doc, sdefs[rec.Type], sdefs, "", 0); len(und) > 0 {
+				st["MEMBER-NOT-DECLARED"]++
+				rp := map[string]interface{}{"model": rec.Type, "document": rec.JSON, "undeclared": und, "definition": sdefs[rec.Type]}
+				for k, v := range replay {
+					rp[k] = v
+				}
+				run.Deviation("member-not-declared", fmt.Sprintf("a value of %s marshals with members %v that the scanned definition does not declare", rec.Type, und), rp)
+			} else {
+				st["members-declared"]++
+			}
 			if rec.DecErr != "" {
 				st["DECODE-BACK-FAILS"]++
 			}
@@ -479,4 +528,70 @@ func CheckC16(run *ev.Run) {
 		}
 	}
 	run.Extra["distribution"] = st
+}
+
+// undeclaredMembers lists the JSON members of a document that the (struct-derived) schema does not declare.
+func undeclaredMembers(doc interface{}, schema interface{}, defs map[string]interface{}, path string, depth int) []string {
+	sm, ok := schema.(map[string]interface{})
+	if !ok || depth > 14 {
+		return nil
+	}
+	if ref, ok := sm["$ref"].(string); ok {
+		return undeclaredMembers(doc, defs[strings.TrimPrefix(ref, "#/definitions/")], defs, path, depth+1)
+	}
+	switch d := doc.(type) {
+	case []interface{}:
+		var out []string
+		for i, e := range d {
+			out = append(out, undeclaredMembers(e, sm["items"], defs, fmt.Sprintf("%s[%d]", path, i), depth+1)...)
+		}
+		return out
+	case map[string]interface{}:
+		props := map[string]interface{}{}
+		var collect func(s map[string]interface{}, dep int)
+		collect = func(s map[string]interface{}, dep int) {
+			if dep > 10 {
+				return
+			}
+			if ref, ok := s["$ref"].(string); ok {
+				if t, ok := defs[strings.TrimPrefix(ref, "#/definitions/")].(map[string]interface{}); ok {
+					collect(t, dep+1)
+				}
+			}
+			if ps, ok := s["properties"].(map[string]interface{}); ok {
+				for k, v := range ps {
+					props[k] = v
+				}
+			}
+			if all, ok := s["allOf"].([]interface{}); ok {
+				for _, a := range all {
+					if am, ok := a.(map[string]interface{}); ok {
+						collect(am, dep+1)
+					}
+				}
+			}
+		}
+		collect(sm, 0)
+		addl := sm["additionalProperties"]
+		if len(props) == 0 && (addl != nil || sm["type"] != "object") {
+			var out []string
+			for k, v := range d {
+				out = append(out, undeclaredMembers(v, addl, defs, path+"."+k, depth+1)...)
+			}
+			return out
+		}
+		var out []string
+		for k, v := range d {
+			ps, ok := props[k]
+			if !ok {
+				if addl == nil {
+					out = append(out, path+"."+k)
+				}
+				continue
+			}
+			out = append(out, undeclaredMembers(v, ps, defs, path+"."+k, depth+1)...)
+		}
+		return out
+	}
+	return nil
 }
